@@ -22,6 +22,20 @@
 #include "oomd/util/PluginArgParser.h"
 #include "oomd/util/Util.h"
 
+namespace {
+// std::sto* stop at the first character they cannot use; a value such as
+// "12abc" or "1.5" for an integer must be rejected, not cut short
+template <typename F>
+auto parseWhole(F func, const std::string& str) {
+  size_t pos = 0;
+  auto res = func(str, &pos);
+  if (pos != str.size()) {
+    throw std::invalid_argument("trailing characters in \"" + str + "\"");
+  }
+  return res;
+}
+} // namespace
+
 namespace Oomd {
 
 std::unordered_set<CgroupPath> PluginArgParser::parseCgroup(
@@ -38,7 +52,9 @@ std::unordered_set<CgroupPath> PluginArgParser::parseCgroup(
 }
 
 int PluginArgParser::parseUnsignedInt(const std::string& intStr) {
-  int res = std::stoi(intStr);
+  int res = parseWhole(
+      [](const std::string& s, size_t* pos) { return std::stoi(s, pos); },
+      intStr);
   if (res < 0) {
     throw std::invalid_argument("must be non-negative");
   }
@@ -105,22 +121,31 @@ std::unordered_set<std::string> PluginArgParser::validArgNames() {
 
 template <>
 int64_t PluginArgParser::parseValue(const std::string& valueString) {
-  return std::stoull(valueString);
+  // stoll, not stoull: the destination is signed, "-1" and 2^63 must not wrap
+  return parseWhole(
+      [](const std::string& s, size_t* pos) { return std::stoll(s, pos); },
+      valueString);
 }
 
 template <>
 int PluginArgParser::parseValue(const std::string& valueString) {
-  return std::stoi(valueString);
+  return parseWhole(
+      [](const std::string& s, size_t* pos) { return std::stoi(s, pos); },
+      valueString);
 }
 
 template <>
 double PluginArgParser::parseValue(const std::string& valueString) {
-  return std::stod(valueString);
+  return parseWhole(
+      [](const std::string& s, size_t* pos) { return std::stod(s, pos); },
+      valueString);
 }
 
 template <>
 float PluginArgParser::parseValue(const std::string& valueString) {
-  return std::stof(valueString);
+  return parseWhole(
+      [](const std::string& s, size_t* pos) { return std::stof(s, pos); },
+      valueString);
 }
 
 template <>
@@ -145,7 +170,9 @@ std::string PluginArgParser::parseValue(const std::string& valueString) {
 template <>
 std::chrono::milliseconds PluginArgParser::parseValue(
     const std::string& valueString) {
-  return std::chrono::milliseconds(std::stoll(valueString));
+  return std::chrono::milliseconds(parseWhole(
+      [](const std::string& s, size_t* pos) { return std::stoll(s, pos); },
+      valueString));
 }
 
 template <>
